@@ -328,6 +328,9 @@ func c03Handwritten() []string {
 		Lines(Var("keep", "nil"), "{ "+Var("a1", `"A"`)+" { "+Var("b1", `"B"`)+" { "+Fun("deep", "x", " "+Ret("a1 + b1 + x")+" ")+" keep = deep; } } }", Print(`keep("1")`), "{ "+Var("other", "5")+" "+Print("other")+" }", Print(`keep("2")`)),
 		Lines(Var("hs", "[nil, nil]"), Var("n", "0"), While("n < 2", "{ "+Var("lv", "n + 100")+" "+IfElse("n == 0", "{ "+Fun("h0", "", " "+Ret("lv")+" ")+" hs[0] = h0; }", "{ "+Fun("h1", "", " lv = lv + 1; "+Ret("lv")+" ")+" hs[1] = h1; }")+" n = n + 1; }"), Print("hs[0]()"), Print("hs[1]()"), Print("hs[1]()"), Print("n")),
 		Lines(Fun("reg", "", " "+Var("cfg", "7")+" { { "+Fun("cbk", "", " "+Ret("cfg * 2")+" ")+" "+Ret("cbk")+" } } "), Var("c1", "reg()"), Print("c1()"), Var("c2", "reg()"), Print("c2() + c1()")),
+		// built-in names are bindings of the outermost scope: reading, assigning and shadowing them works like for any global
+		Lines(Fun("myLen", "a", " "+Ret("42")+" "), Print(BI("len", "[1, 2]")), B["len"]+" = myLen;", Print(BI("len", "[1, 2]")), Fun("f", "", " "+B["round"]+" = myLen; "+Ret(BI("round", "2.5"))+" "), Print("f()"), Print(BI("round", "2.5")), "{ "+B["abs"]+" = nil; }", Print(B["abs"])),
+		Lines(Fun("g", B["max"], " "+B["max"]+" = 5; "+Ret(B["max"])+" "), Print("g(1)"), Print(BI("max", "1", "2")), "{ "+Var("loc", "1")+" "+B["min"]+" = loc; }", Print(B["min"]), Print(`"end"`)),
 		// a function declared in an inner scope shadows, never replaces, an outer binding of its name
 		Lines(Fun("greet", "", " "+Ret(`"outer"`)+" "), "{ "+Fun("greet", "", " "+Ret(`"inner"`)+" ")+" "+Print("greet()")+" }", Print("greet()")),
 		Lines(Var("h", "1"), Fun("f", "", " "+Fun("h", "", " "+Ret("2")+" ")+" "+Ret("h()")+" "), Print("f()"), Print("h")),
